@@ -41,7 +41,9 @@ func c19Response(state int, tag string) any {
 	case 2:
 		return J{"schema": J{"type": "string"}}
 	case 3:
-		return J{"$ref": "#/responses/shared0"}
+		// local, relative-file, file:// and http $refs, rotating with the slot
+		refs := []string{"#/responses/shared0", "responses.json#/responses/notFound", "file:///specs/responses.json#/responses/gone", "http://example.com/r.json#/responses/x", "other.json"}
+		return J{"$ref": refs[len(tag)%len(refs)]}
 	case 4:
 		return J{"description": "", "headers": J{"X-A": J{"type": "string"}}}
 	}
